@@ -248,4 +248,4 @@ ASSUME = ['header formula and faithful projection exactly as the statement says;
 if __name__ == '__main__':
     tier = sys.argv[1] if len(sys.argv) > 1 else 'quick'
     sys.exit(run_check('C11', tier, layers(tier), assumptions=ASSUME,
-                       cap_s=300 if tier == 'quick' else 6000))
+                       cap_s=900 if tier == 'quick' else 7200))
